@@ -115,6 +115,16 @@ def ref_lane(func, vals, masks):
             if func == 'std':
                 r = ('sqrt', r)
         return [r], [False]
+    if func == 'median':
+        if not live:
+            return [0], [True]
+        if len(live) == 1:
+            return [live[0]], [False]
+        if len(live) == 2:
+            return [(live[0] + live[1]) / 2], [False]
+        if len(live) == 3:
+            return [('median3', live)], [False]
+        raise NotImplementedError('median of %d values' % len(live))
     if func == 'diff':
         return ([vals[i + 1] - vals[i] for i in range(n - 1)],
                 [masks[i] or masks[i + 1] for i in range(n - 1)])
@@ -160,6 +170,16 @@ def match_expr(got, exp):
                       else z3.BoolVal(bool(d)))
         eq = [common.eq_expr(got, v) for v in live]
         return z3.And(z3.And(*le), z3.Or(*eq))
+    if isinstance(exp, tuple) and exp[0] == 'median3':
+        live = exp[1]
+
+        def zb(d):
+            return symx._b(d) if not isinstance(d, (bool, np.bool_)) \
+                else z3.BoolVal(bool(d))
+        le = z3.Sum(*[z3.If(zb(v <= got), 1, 0) for v in live])
+        ge = z3.Sum(*[z3.If(zb(v >= got), 1, 0) for v in live])
+        eq = [common.eq_expr(got, v) for v in live]
+        return z3.And(z3.Or(*eq), le >= 2, ge >= 2)
     if isinstance(exp, tuple) and exp[0] == 'sqrt':
         g = got
         if isinstance(g, symx.Sym):
@@ -479,6 +499,8 @@ def _close(got, exp, tol):
     if isinstance(exp, tuple) and exp[0] == 'minmax':
         live = [float(x) for x in exp[2]]
         e = min(live) if exp[1] == 'min' else max(live)
+    elif isinstance(exp, tuple) and exp[0] == 'median3':
+        e = sorted(float(x) for x in exp[1])[1]
     elif isinstance(exp, tuple) and exp[0] == 'sqrt':
         e = math.sqrt(float(exp[1]))
     else:
@@ -643,6 +665,13 @@ def obligations(tier):
         if len(dims) >= 3:
             for r in ('sum', 'max'):
                 obs.append(Apply(spec, [(d, r) for d in dims]))
+    # a reducer that is not an array method (looked up in numpy.ma / numpy):
+    # sorting forks on every comparison, so a single lane per variable
+    med = FileSpec([('t', 3, True), ('x', 1, False)], [
+        VarSpec('A', ('t', 'x'), attrs={'units': 'ppb'}),
+        VarSpec('M', ('t', 'x'), masked=(1,)),
+    ], attrs={'title': 'test'}, label='t3x1')
+    obs.append(ApplyStr(med, 'reduce_dim', 't', 'median'))
     # command-line string forms
     for spec in _specs(tier)[:2]:
         for d in [x[0] for x in spec.dims]:
